@@ -2,7 +2,7 @@
 with bounds, defaults and where clauses, references inside generic arguments, arrays, tuples, paths, nested generics, raw identifiers,
 foreign attributes and doc comments, every documented difference attribute in several spellings), each with a round-trip / frame test.
 Also: generator of field TYPES for the parser tie (pd dump vs Coq model of next_type), and the list of known-bad constructs."""
-import random
+import random, re
 
 BASE = ['i64', 'u8', 'bool', 'String']
 KEYS = ['i64', 'u8', 'String']
@@ -215,6 +215,8 @@ def gen_enum(rng, idx):
     T = 'T' if tp else 'i64'
     variants = ['A', f'B({T})', f'C {{ x: {T}, y: Option<String> }}', 'D(i64, bool)', 'E { }', 'F()', 'K(u8, String, (i64, bool))']
     rng.shuffle(variants); variants = variants[:rng.randint(1, 5)]
+    # raw identifiers as variant names (keywords, so that the `r#` cannot be dropped): unit, tuple-like and struct-like
+    if idx % 3 == 0: variants.append(rng.choice(['r#type', 'r#match(i64)', f'r#loop {{ x: {T}, y: Option<String> }}']))
     if tp and not any('T' in v[1:] for v in variants): variants.append('B(T)' if not any(v.startswith('B') for v in variants) else 'G(T)')      # a declared parameter must be used (rustc E0392)
     # stratified: a lifetime (reference inside a generic argument, Cow), a const parameter (array length)
     elt = idx % 3 == 1; ecn = idx % 4 == 2
@@ -231,7 +233,7 @@ def gen_enum(rng, idx):
     gen_mk = '<' + ', '.join((["'a"] if elt else []) + (['T: Mk' + (' + Clone + PartialEq' if estyle == 'inline' else '')] if tp else []) + (['const N: usize'] if ecn else [])) + '>' if (tp or elt or ecn) else ''
     arms = []
     for k, v in enumerate(variants):
-        vn = v[0]
+        vn = re.match(r'r#\w+|\w', v).group(0)
         if v.startswith('K('): e = f"{name}::{vn}(Mk::mk(s), Mk::mk(s + 1), Mk::mk(s + 2))"
         elif v.startswith(('H(', 'J(')): e = f"{name}::{vn}(" + ('Mk::mk(s), Mk::mk(s + 1)' if "str>, i64" in v else 'Mk::mk(s)') + ")"
         elif '(' in v and v.endswith('()'): e = f"{name}::{vn}()"
